@@ -26,6 +26,13 @@ def memo_discipline(repo, run, rule):
         if len(evals) > 1:
             raise AnalysisError('evaluate_node: more than one <node>.ayns.on_evaluate call on a path')
         hits = [t for t, pol in p.facts if pol and t.startswith('id(') and t.endswith(') in self._eval_cache_id')]
+        shits = [t for t, pol in p.facts if not pol and t.startswith('self._eval_cache_id.get(id(') and ') is ' in t and _is_sentinel(fi, t.split(') is ', 1)[1])]
+        if shits and not hits and not evals and p.status == 'return':
+            got = shits[0].split(') is ', 1)[0] + ')'
+            if p.ret is None or p.ret.text != got:
+                v('bad', tr.final_event(p), 'memo hit', 'a memo hit does not return the memoised object itself (returns %s)' % (p.ret.text[:50] if p.ret is not None else None))
+            else:
+                v('ok', tr.final_event(p), 'memo hit', 'memo hit returns the stored object')
         if hits and not evals and p.status == 'return':
             x = hits[0][3:-len(') in self._eval_cache_id')]
             if p.ret is None or p.ret.text != 'self._eval_cache_id[id(%s)]' % x:
@@ -38,7 +45,10 @@ def memo_discipline(repo, run, rule):
         e = evals[0]
         x = e.recv.text[:-5]
         miss = ('id(%s) in self._eval_cache_id' % x, False)
-        if miss in e.facts:
+        # (the same test written with a module-level sentinel: `(v := memo.get(id(x), _MISSING)) is not _MISSING`)
+        sent = [t for t, pol in e.facts if pol and t.startswith('self._eval_cache_id.get(id(%s), ' % x) and ') is ' in t
+                and t.split(') is ', 1)[1] == t[len('self._eval_cache_id.get(id(%s), ' % x):].split(')', 1)[0] and _is_sentinel(fi, t.split(') is ', 1)[1])]
+        if miss in e.facts or sent:
             v('ok', e, e.callee, 'reached only on a miss of the identity memo (%s)' % miss[0])
         else:
             v('bad', e, e.callee, 'a node is evaluated on a path where membership of id(%s) in the identity memo has not been tested false: a memoised node (e.g. one whose result is None / falsy) is evaluated again' % x)
@@ -94,6 +104,11 @@ def who_may_evaluate(repo, run, rule):
         raise AnalysisError('who-may-evaluate: only %d call sites found' % n)
 
 
+def _is_sentinel(fi, name):
+    g = fi.module.constant_binding(name) if name.isidentifier() else None
+    return isinstance(g, ast.Call) and isinstance(g.func, ast.Name) and g.func.id == 'object' and not g.args and not g.keywords
+
+
 def per_build_caches(repo, run, rule):
     """every cache the context creates is emptied before a tree is evaluated and on every way out (also when the evaluation raises)"""
     from . import tr
@@ -123,16 +138,43 @@ def per_build_caches(repo, run, rule):
             continue
         n += 1
 
-        def cleared(evts):
+        def cleared(evts, base='self'):
             out = set()
             for e in evts:
-                if e.kind == 'call' and e.attr == 'clear' and e.recv is not None and e.recv.text.startswith('self.'):
-                    out.add(e.recv.text[5:])
-                if e.kind == 'store' and e.target.startswith('self._eval_cache') and e.value is not None and e.value.text in ('{}', 'dict()'):
-                    out.add(e.target[5:])
+                if e.kind == 'call' and e.attr == 'clear' and e.recv is not None and e.recv.text.startswith(base + '.'):
+                    out.add(e.recv.text[len(base) + 1:])
+                if e.kind == 'store' and e.target.startswith(base + '._eval_cache') and e.value is not None and e.value.text in ('{}', 'dict()'):
+                    out.add(e.target[len(base) + 1:])
             return out
-        missing_before |= caches - cleared(p.events[:evs[0]])
-        missing_after |= caches - cleared(p.events[evs[0]:])
+
+        def cm_clears(evts):
+            # `with _helper(self, ...):` around the evaluation, _helper a private @contextmanager of the package that is handed the
+            # context: what it clears before its yield happens before the body, what it clears after the yield on every way out
+            # (normal and exceptional) happens after it
+            before, after = set(), None
+            for e in evts:
+                if e.kind != 'with_enter' or not isinstance(e.value.ast, ast.Call) or not isinstance(e.value.ast.func, ast.Name):
+                    continue
+                g = fi.module.functions.get(e.value.ast.func.id)
+                if g is None or not g.is_contextmanager:
+                    continue
+                call = e.value.ast
+                params = g.params()
+                bases = [params[i] for i, a in enumerate(call.args) if i < len(params) and norm(a) == 'self']
+                if not bases:
+                    continue
+                for q in tr.paths_of(repo, g, follow_exceptions=True):
+                    ys = [i for i, x in enumerate(q.events) if x.kind == 'yield']
+                    if not ys:
+                        continue
+                    b_ = cleared(q.events[:ys[0]], bases[0])
+                    a_ = cleared(q.events[ys[0]:], bases[0])
+                    before = b_ if not before else before & b_ if False else (before | b_)
+                    after = a_ if after is None else after & a_
+            return before, (after or set())
+        cb, ca = cm_clears(p.events[:evs[0]])
+        missing_before |= caches - cleared(p.events[:evs[0]]) - cb
+        missing_after |= caches - cleared(p.events[evs[0]:]) - ca
     if not n:
         raise AnalysisError('EvalContext.evaluate: evaluate_node call not recognised')
     for cache in sorted(caches):
